@@ -172,6 +172,9 @@ def layer_catalogue():
                     cout = groups * mult if groups > 1 else (cin * mult if mult > 1 else cin)
                     for ks in ((3,) * nd, (5,) * nd, (1,) * nd) + (((3, 1), (1, 3)) if nd == 2 else ()):
                         out.append(('Conv%dd' % nd, {'in_channels': cin, 'out_channels': cout, 'groups': groups, 'kernel_size': ks}))
+    for cin, cout, groups in ((4, 4, 1), (4, 4, 4), (2, 6, 2)):
+        for ks in itertools.product((1, 3, 5), repeat=3):
+            out.append(('Conv3d', {'in_channels': cin, 'out_channels': cout, 'groups': groups, 'kernel_size': ks}))
     return out
 
 
@@ -333,6 +336,42 @@ def run(ctx):
             ctx.violation('lookup-differs-from-rule', {'case': {'regs': [(tyn, None, 10), (tyn, 0, 11), (tyn, 1, 12)], 'ty': tyn, 'spec': ls, 'sat': [i for i, b in enumerate(exp) if b], 'default': 'fail'},
                                                        'impl_outcome': o, 'rule_outcome': want},
                           'lookup for %s %s returned %s, the documented rule gives %s (10 generic, 11 depthwise, 12 3x3, -2 conflict)' % (tyn, ls, o, want))
+
+    # ---- (d2) a user sub-class of a torch layer is a layer type of its own: patterns registered for the sub-class never answer
+    #           lookups for the parent type (and vice versa), whatever the registration order
+    class CausalConv1d(nn.Conv1d):
+        pass
+
+    class MyLinear(nn.Linear):
+        pass
+    for parent, child, ls in ((nn.Conv1d, CausalConv1d, {'in_channels': 3, 'out_channels': 4, 'groups': 1, 'kernel_size': (3,)}),
+                              (nn.Conv1d, CausalConv1d, {'in_channels': 4, 'out_channels': 4, 'groups': 4, 'kernel_size': (5,)}),
+                              (nn.Linear, MyLinear, {'in_features': 8, 'out_features': 4})):
+        pats = [(parent, None, 1), (child, None, 2)] + ([(parent, pt.conv_3_constraint, 3), (child, pt.conv_3_constraint, 4), (child, pt.conv_dw_constraint, 5)] if parent is nn.Conv1d else [])
+        for k in range(1, len(pats) + 1):
+            for sel in itertools.permutations(pats, k):
+                for default in ('zero', 'fail'):
+                    sp = cs.CostSpec(default_behavior=default)
+                    fns = {}
+                    for (t, c, tag) in sel:
+                        fns[tag] = (lambda tag: (lambda s_: tag))(tag)
+                        sp[(t, c)] = fns[tag]
+                    for ty in (parent, child):
+                        sat = [tag for (t, c, tag) in sel if t is ty and c is not None and c(ls)]
+                        un = [tag for (t, c, tag) in sel if t is ty and c is None]
+                        want = -2 if len(sat) >= 2 else sat[0] if sat else un[-1] if un else -1
+                        try:
+                            fn = sp[(ty, ls)]
+                            got = next((tg for tg, f in fns.items() if f is fn), -1 if fn is sp.default else -3)
+                        except KeyError:
+                            got = -2
+                        ctx.case(('subclass', ty.__name__, tuple((t.__name__, getattr(c, '__name__', None), tag) for t, c, tag in sel), default), nontrivial=True, kind='subclass-types')
+                        ctx.corr += 1
+                        if got != want:
+                            ctx.violation('lookup-differs-from-rule:sub-class-of-a-layer-type', {'registrations': [(t.__name__, getattr(c, '__name__', None), tag) for t, c, tag in sel],
+                                                                                               'lookup_type': ty.__name__, 'layer_spec': ls, 'default': default, 'impl_outcome': got, 'rule_outcome': want},
+                                          'with registrations %s the lookup for %s %s returned %s, the rule (patterns of the layer\'s own type only) gives %s'
+                                          % ([(t.__name__, getattr(c, '__name__', None), tag) for t, c, tag in sel], ty.__name__, ls, got, want))
 
     # ---- (e) registrations interleaved with lookups on one CostSpec object: every lookup must equal the lookup on a
     #          fresh object with the registrations made so far (and the model on that prefix)
